@@ -33,7 +33,7 @@ def run(tier):
     rnd = random.Random(c.seed)
     # ---- spec behaviours
     cfg = os.path.join(c.run_dir, "ExprHeap.cfg")
-    open(cfg, "w").write("CONSTANTS\n  MaxOps = %d\n  MaxNodes = %d\nINIT Init\nNEXT Next\nINVARIANTS Laws ArityIsSub EmitState\nCHECK_DEADLOCK FALSE\n" % ((3, 16) if quick else (4, 24)))
+    open(cfg, "w").write("CONSTANTS\n  MaxOps = %d\n  MaxNodes = %d\n  MaxHandles = 4\nINIT Init\nNEXT Next\nINVARIANTS Laws ArityIsSub EmitState\nCHECK_DEADLOCK FALSE\n" % ((3, 16) if quick else (4, 24)))
     mc = vf.run_tlc("ExprHeap", cfg, c.run_dir, timeout=3000, xmx="16g", keep_out=False)
     c.add_tlc("ExprHeap", mc, "Laws (clone, clone_deeper, subst, set_child) on every operation sequence")
     if mc.violated:
@@ -63,6 +63,10 @@ def run(tier):
         nb += r["n"]
         for mm in r["mismatches"]:
             ops = [o["op"] for o in mm["ops"]]
+            if "law" in mm:
+                upto = ops[:mm.get("step", len(ops))]
+                c.finding("c19:behaviour-law:%s:%s" % (upto[-1], mm["law"].split(" ")[0]), "after %s on the heap %s: %s" % ([(o["op"], o["h"], o["i"], o["x"], o["s"]) for o in mm["ops"]][:len(upto)], json.dumps(mm["heap0"])[:160], mm["law"]), mm)
+                continue
             d = docgen.diff({"trees": mm["expected_trees"], "share": mm["expected_share"]}, {"trees": mm["trees"], "share": mm["share"]})
             c.finding("c19:behaviour:%s:%s" % (ops[-1], docgen.diff_class(d[0]).split("/")[1]),
                       "after %s on the heap %s the real expressions differ from ExprHeap.tla at %s: expected %s, got %s" % (ops, json.dumps(mm["heap0"])[:120], d[0][0], json.dumps(d[0][1])[:100], json.dumps(d[0][2])[:100]), mm)
